@@ -35,4 +35,68 @@ def run(pid, tier):
             R.anchor_missing(str(e))
     if tier == "thorough" and hasattr(mod, "thorough_extra"):
         mod.thorough_extra(R)
-    return R.finish()
+    selftest_failed = False
+    if tier == "thorough" and not R.violations_unlisted():
+        selftest_failed = selftest(pid, mod, R)
+    rc = R.finish()
+    if selftest_failed and rc == 0:
+        print("CHECKER-SELFTEST-FAILED property=%s: a seeded change this check is recorded to detect is no longer reported "
+              "(see evidence coverage.selftest)" % pid)
+        return 2
+    return rc
+
+
+def selftest(pid, mod, R):
+    """both-ways test of the checker (thorough tier): every change under seeded/<pid>-k that this check is recorded to
+    detect is applied to a scratch copy of /repo (outside /repo and /verif, removed afterwards), facts are re-extracted
+    from that copy and the same rule module must report at least one violation.  A seed whose patch no longer applies to
+    the current tree is skipped and listed.  Returns True when a recorded detection was lost."""
+    import glob
+    import json
+    import shutil
+    import subprocess
+    import tempfile
+    from common import VERIF
+    seeds = []
+    for d in sorted(glob.glob(os.path.join(VERIF, "seeded", "C*-*"))):
+        try:
+            meta = json.load(open(os.path.join(d, "meta.json")))
+        except Exception:
+            continue
+        if meta.get("detected_by") == pid:
+            seeds.append((os.path.basename(d), d))
+    results = []
+    lost = False
+    for name, d in seeds:
+        scratch = tempfile.mkdtemp(prefix="verif-scratch.%s." % name, dir="/var/tmp")
+        try:
+            subprocess.run(["rsync", "-a", "--exclude", "target", "--exclude", ".git", extract.REPO + "/", scratch + "/"], check=True)
+            ap = subprocess.run(["patch", "-p1", "-s", "--forward", "-i", os.path.join(d, "patch.diff")], cwd=scratch,
+                                stdout=subprocess.PIPE, stderr=subprocess.STDOUT, text=True)
+            if ap.returncode != 0:
+                results.append({"seed": name, "status": "skipped: patch does not apply to the current tree"})
+                continue
+            try:
+                fd, tree, secs, cached = extract.extract("release", repo=scratch, quiet=True)
+            except SystemExit as e:
+                results.append({"seed": name, "status": "skipped: patched tree does not build (%s)" % e})
+                continue
+            R2 = Report(pid, "selftest", "")
+            try:
+                F2 = FX.Facts(fd, mod.CRATES)
+                mod.run(F2, R2, "quick", "release")
+            except FX.AnchorMissing as e:
+                R2.anchor_missing(str(e))
+            vs = [v for v in R2.violations_unlisted() if v["rule"] not in ("stale-facts",)]
+            rules = sorted({v["rule"] for v in vs})
+            ok = bool(vs)
+            results.append({"seed": name, "status": "detected" if ok else "NOT DETECTED", "rules": rules, "violations": len(vs), "extract_s": round(secs, 1)})
+            if not ok:
+                lost = True
+        finally:
+            shutil.rmtree(scratch, ignore_errors=True)
+    R.extra["selftest"] = {"what": "seeded changes (independent sub-agents, see seeded/*/meta.json) applied to a scratch copy; the check must fire on each",
+                           "seeds": results}
+    for r in results:
+        print("[selftest %s] %s %s" % (r["seed"], r["status"], r.get("rules", "")))
+    return lost
